@@ -9,19 +9,27 @@ import (
 	"time"
 
 	"github.com/inbucket/inbucket/v3/pkg/config"
+	"github.com/inbucket/inbucket/v3/pkg/policy"
 	"github.com/inbucket/inbucket/v3/pkg/storage"
 	"github.com/rs/zerolog/log"
 )
 
 // Server defines an instance of the POP3 server.
 type Server struct {
-	config    config.POP3     // POP3 configuration.
-	store     storage.Store   // Mail store.
-	listener  net.Listener    // TCP listener.
-	wg        *sync.WaitGroup // Waitgroup tracking sessions.
-	notify    chan error      // Notify on fatal error.
-	tlsConfig *tls.Config     // TLS encryption configuration.
-	tlsState  *tls.ConnectionState
+	config     config.POP3     // POP3 configuration.
+	store      storage.Store   // Mail store.
+	listener   net.Listener    // TCP listener.
+	wg         *sync.WaitGroup // Waitgroup tracking sessions.
+	notify     chan error      // Notify on fatal error.
+	tlsConfig  *tls.Config     // TLS encryption configuration.
+	tlsState   *tls.ConnectionState
+	addrPolicy *policy.Addressing // Maps login names to mailbox names, optional.
+}
+
+// SetAddressPolicy makes the server map the name given to USER/APOP onto a mailbox name the same
+// way the SMTP and HTTP interfaces do.  Without it the name is used verbatim.
+func (s *Server) SetAddressPolicy(addrPolicy *policy.Addressing) {
+	s.addrPolicy = addrPolicy
 }
 
 // NewServer creates a new, unstarted, POP3 server.
